@@ -46,6 +46,10 @@ func CopyLogs(ctx context.Context, dst, src raft.LogStore, batchBytes int, progr
 	if err != nil {
 		return fmt.Errorf("failed getting last index: %w", err)
 	}
+	if last == 0 {
+		// Empty source log (raft indexes start at 1): nothing to copy.
+		return nil
+	}
 
 	batch := make([]*raft.Log, 0, 4096)
 	batchSize := 0
